@@ -237,13 +237,26 @@ def _worker(args):
     return out
 
 
+def _run_pool(fn, args, jobs, hard):
+    """per-task processes with a hard limit (a generator that never terminates must not hang the check)"""
+    from checks import driver
+    out = driver.run_tasks(fn, args, jobs, hard)
+    return out
+
+
 def run_grid(tree, tier, jobs=16):
-    import multiprocessing as mp
     g = grid(tier)
     seeds = [0, 1, 2] if tier == "quick" else list(range(8))
-    with mp.Pool(jobs) as pool:
-        res = pool.map(_worker, [(tree, p, seeds) for p in g], chunksize=2)
-    return [r for rs in res for r in rs], len(g), seeds
+    args = [(tree, p, seeds) for p in g]
+    res = _run_pool(_worker, args, jobs, 120 if tier == "quick" else 600)
+    flat = []
+    for a, rs in zip(args, res):
+        if isinstance(rs, dict) and rs.get("error"):
+            flat.append({"params": a[1], "seed": a[2][0], "solvable": None,
+                         "violations": [f"C15.generate-did-not-terminate-or-crashed:{rs['error'][:80]}"]})
+        else:
+            flat.extend(rs)
+    return flat, len(g), seeds
 
 
 HASH_CHILD = r'''
@@ -327,12 +340,10 @@ def _shim_worker(args):
 
 
 def run_shim(tree, tier, jobs=16):
-    import multiprocessing as mp
     g = grid(tier)
     seeds = [0, 1, 2] if tier == "quick" else list(range(8))
-    with mp.Pool(jobs) as pool:
-        res = pool.map(_shim_worker, [(tree, p, seeds) for p in g], chunksize=2)
-    return [r for rs in res for r in rs], len(g) * len(seeds)
+    res = _run_pool(_shim_worker, [(tree, p, seeds) for p in g], jobs, 120 if tier == "quick" else 600)
+    return [r for rs in res if isinstance(rs, list) for r in rs], len(g) * len(seeds)
 
 
 # ------------------------------------------------------------------ witnesses of the recorded C15 findings
